@@ -48,7 +48,7 @@ pub fn gen_poly(rng: &mut Rng) -> Option<Case> {
 fn run(ctx: &mut Ctx, extra: &mut BTreeMap<String, String>) {
   let seed = ctx.seed;
   let small = ctx.pass != "release";
-  let n = if ctx.thorough { if small { 4000 } else { 4_000_000 } } else if small { 400 } else { 320_000 };
+  let n = if ctx.thorough { if small { 4000 } else { 4_000_000 } } else if small { 4000 } else { 320_000 };
   extra.insert("polygons".into(), format!("{}", n));
   run_sharded(ctx, 16, |c, k| {
     let mut rng = Rng::new(seed, 1200 + k as u64);
